@@ -944,6 +944,16 @@ pub fn run_check(prop: &'static dyn Prop, tier: Tier, seed: u64) -> i32 {
     }
     let wall = t0.elapsed().as_secs_f64();
     let exhaustive = prop.fixed_exhaustive() && n_fixed > 0;
+    // a run that stopped at its first case still shows what it ran
+    for v in violations.iter().take(3) {
+        if all.samples.len() < 3 {
+            let text = if v.render.is_empty() { v.msg.clone() } else { v.render.clone() };
+            all.samples.push(format!("(failing case, {}) {}", v.sig, text.chars().take(2000).collect::<String>()));
+        }
+    }
+    if all.samples.is_empty() {
+        all.samples.push("(no case was executed)".into());
+    }
     write_evidence(prop, tier, seed, &all, n_viol, &known_lines, wall, exhaustive, notes);
     println!(
         "{} {} seed={} cases={} evaluations={} nontrivial={} distinct_nontrivial={} discards={} known_excluded={:?} wall={:.1}s => exit {}",
